@@ -37,7 +37,9 @@ def main():
         nZ = int(rng.choice(a.get("sizes", [17, 25, 33, 49, 65])))
         if nR == nZ:
             nZ += 8
-        e_ = {"topo": str(rng.choice(["lsn", "usn", "cdn", "ldn"])), "s": float(rng.choice([-1, 1])), "fs": float(rng.choice([-1, 1])), "nR": nR, "nZ": nZ, "shift": [float(rng.uniform(-0.01, 0.01)), float(rng.uniform(-0.01, 0.01))], "prof": "exp"}
+        e_ = {"topo": str(rng.choice(["lsn", "usn", "cdn", "ldn"])), "s": float(rng.choice([-1, 1])), "fs": float(rng.choice([-1, 1])), "nR": nR, "nZ": nZ, "shift": [float(rng.uniform(-0.01, 0.01)), float(rng.uniform(-0.01, 0.01))], "prof": "exp", "zoff": float(rng.choice([0.0, 1.8, -2.6])), "scale": float(rng.choice([1.0, 0.5, 3.0]))}
+        if t == 0:
+            e_.update(zoff=1.8, scale=1.0)  # every shard reaches the class max(Z) > max(R)
         fam = families.GaussFamily(e_)
         R1D, Z1D, psi2D, psi1D, fpol1D, pres = fam.arrays()
         R2, Z2 = np.meshgrid(R1D, Z1D, indexing="ij")
@@ -55,6 +57,8 @@ def main():
             distinct += 1
             cls = "%s|psi1D %s|%dx%d" % (m, "increasing" if psi1D[-1] > psi1D[0] else "decreasing", 1 if nR <= 33 else 2, 1 if nZ <= 33 else 2)
             cls = "%s|psi1D %s" % (m, "increasing" if psi1D[-1] > psi1D[0] else "decreasing")
+            if max(Z1D) > max(R1D):
+                cls += "|max(Z)>max(R)"
             where = dict(e_, method=m)
             if len(samples) < 2:
                 samples.append(where)
@@ -69,7 +73,7 @@ def main():
             pn_ = fam.psinorm(eq.psi(P[:, 0], P[:, 1]))
             P = P[np.abs(pn_ - fam.pn_max) > 0.02][:300]
             R, Z = P[:, 0], P[:, 1]
-            h = 1e-4
+            h = 1e-4 * fam.L
             pR = fdR(eq.psi, R, Z, h)
             pZ = fdZ(eq.psi, R, Z, h)
             g2 = pR**2 + pZ**2
